@@ -4,7 +4,11 @@ RESTRICTED CLAIM: TLA+/TLC has integers and finite sets only, so only the EXACTL
 (rational constants, variables, + - * /, integer powers, definite integrals / indefinite integrals of syntactic polynomials,
 derivatives of rational expressions, finite sums, EvalAt, abs), plus the STRUCTURAL clauses on all expression forms.
 
- S  spec/C19_Calc.tla        the calculation machine of compstate.Calculation (start, steps) with REFERENCE rules on the polynomial
+ S  spec/C19_Rules.tla       reference rules on the polynomial fragment (coefficient sequences over lib/Rat)
+    spec/C19_Ctx.tla         the context machine: HISTORIES of rule applications that share one parent-less context (all orders), and
+                             scratch IDENTITIES with 2-3 side conditions under every set of stated conditions; invariants
+                             StepsSameValue, FactsUnchanged; every behaviour is emitted as a vector
+    spec/C19_Calc.tla        the calculation machine of compstate.Calculation (start, steps) with REFERENCE rules on the polynomial
                              fragment (coefficient sequences over lib/Rat); invariants SameValueInv / SameValueOp (every step has
                              the value of the start expression), TwoEvaluators (symbolic vs pointwise evaluation), SimplifyIdempotent;
                              every transition is emitted as a vector (expression, rule, parameters)
@@ -30,15 +34,15 @@ NORM_CLASS2 = "normalize:second-pass-is-not-a-fixed-point-either"
 MUTANTS = [
     # the reference substitution forgets the factor 1 / a of du = a dx
     ("substitution_without_jacobian",
-     [("C19_Calc.tla", "g == PScale(ia, PComp(ToPoly(e[5], e[2]), ia, QNeg(QMul(b, ia)))) IN",
+     [("C19_Rules.tla", "g == PScale(ia, PComp(ToPoly(e[5], e[2]), ia, QNeg(QMul(b, ia)))) IN",
        "g == PComp(ToPoly(e[5], e[2]), ia, QNeg(QMul(b, ia))) IN")], ["SameValueInv", "SameValueOp"]),
     # the power rule divides by n instead of n + 1
     ("power_rule_off_by_one",
-     [("C19_Calc.tla", "IF i = 1 THEN Z ELSE QDiv(p[i - 1], RInt(i - 1))]", "IF i = 1 THEN Z ELSE QDiv(p[i - 1], RInt(i))]")],
+     [("C19_Rules.tla", "IF i = 1 THEN Z ELSE QDiv(p[i - 1], RInt(i - 1))]", "IF i = 1 THEN Z ELSE QDiv(p[i - 1], RInt(i))]")],
      ["SameValueInv", "SameValueOp", "TwoEvaluators"]),
     # integration by parts with the wrong sign
     ("parts_wrong_sign",
-     [("C19_Calc.tla", "Sub(EvalAt(e[2], e[3], e[4], FromPoly(PMul(u, v), e[2])), IntE(",
+     [("C19_Rules.tla", "Sub(EvalAt(e[2], e[3], e[4], FromPoly(PMul(u, v), e[2])), IntE(",
        "Add(EvalAt(e[2], e[3], e[4], FromPoly(PMul(u, v), e[2])), IntE(")], ["SameValueInv", "SameValueOp"]),
     # the pointwise evaluator integrates with the antiderivative's constant factor 1 / i dropped
     ("evaluator_antiderivative",
@@ -48,6 +52,16 @@ MUTANTS = [
     ("evaluator_product_rule",
      [("C19_Eval.tla", "MkD(dx, QMul(a.v, b.v), QAdd(QMul(a.d, b.v), QMul(a.v, b.d)))",
        "MkD(dx, QMul(a.v, b.v), QMul(a.d, b.v))")], ["SameValueInv", "TwoEvaluators"]),
+]
+
+
+CTX_MUTANTS = [
+    # an identity is applied as soon as its LAST side condition is established
+    ("identity_last_condition_only",
+     [("C19_Ctx.tla", "AllEst(cs, f) == \\A i \\in 1..Len(cs) : Est(cs[i], f)", "AllEst(cs, f) == \\A i \\in {Len(cs)} : Est(cs[i], f)")],
+     ["StepsSameValue"]),
+    # the monotonicity test of Substitution writes its interval into the shared context
+    ("rule_writes_shared_context", [("C19_Ctx.tla", "Leak == FALSE", "Leak == TRUE")], ["FactsUnchanged"]),
 ]
 
 
@@ -105,22 +119,31 @@ def run(rep, tier):
     quick = tier == "quick"
     wd = work_dir("C19", "run", clean=True)
     cfg = "C19_Calc_small.cfg" if quick else "C19_Calc_deep.cfg"
+    cfgx = "C19_Ctx_small.cfg" if quick else "C19_Ctx_deep.cfg"
     rep.rule = ("TLC explores the calculation machine (start expression, up to 3 steps) over every integrand of degree <= %s with "
                 "coefficients in {-1,1,2} in expanded / factored / power / scaled shapes, %s integer bound pairs (both orders), as "
                 "definite integrals, derivatives and finite sums, with the reference rules Linearity, power rule, EvalAt, ExpandPolynomial, "
-                "Simplify, linear Substitution (%s slopes/offsets), IntegrationByParts, SplitRegion, DerivativeSimplify, SummationSimplify; every "
-                "transition is replayed through the real Rule.eval. Plus %d seeded random calculations (0-2 parameters with conditions, rational "
+                "Simplify, linear Substitution (%s slopes/offsets), IntegrationByParts, SplitRegion, DerivativeSimplify, SummationSimplify, and limits at "
+                "infinity of rational functions (sums / differences of decaying terms, their reciprocals and powers, quotients of polynomials) "
+                "with ReduceLimit; the context machine explores every history of up to %d rule applications on different integrals in one shared "
+                "parent-less context and 3 scratch identities with 2-3 side conditions under every instantiation / set of stated sign conditions; "
+                "every transition is replayed through the real Rule.eval. Plus %d seeded random calculations (0-2 parameters with conditions, rational "
                 "coefficients, rational functions, nested integrals, EvalAt, sums, indefinite integrals; 1-3 chained steps of 20 rules with "
                 "generated parameters), about 60 directed side-condition cases, random expressions of all forms for print/parse and normalisation, "
-                "and every recorded step of the example files. Non-trivial = the value clause compared both sides at one admissible grid "
+                "seeded random shared-context histories (2-4 steps), scratch identities (6 templates, random instantiations and stated conditions) "
+                "and limits of rational functions, and every recorded step of the example files. Non-trivial = the value clause compared both sides at one admissible grid "
                 "point at least (rule / norm events) or the structural clause was evaluated (pp / norm events); distinct by event content."
-                % (("2", "2", "2", 300) if quick else ("3", "6", "6", 15000)))
+                % (("2", "2", "2", 2, 300) if quick else ("3", "6", "6", 3, 15000)))
     rep.assumptions = [
         "RESTRICTED CLAIM: value preservation is judged only on the exactly evaluable fragment: rational constants, variables, + - * /, "
         "integer powers, abs, definite and indefinite integrals whose integrand is syntactically a polynomial in the integration variable "
         "(degree <= 9; denominators free of it), derivatives (first order) of rational expressions, finite sums with integer bounds, EvalAt; "
-        "trigonometric / exponential / logarithmic / root expressions, improper integrals, limits, series, Skolem functions of the integration "
-        "variable are recorded and NOT examined by value (TLA+/TLC has no real arithmetic)",
+        "limits at +oo / -oo of rational functions (extended values finite | +oo | -oo from degrees and leading coefficients, infinite values only "
+        "at the top of an expression); trigonometric / exponential / logarithmic / root expressions, improper integrals, limits at finite points "
+        "(one- or two-sided), limits of non-rational bodies, series, Skolem functions of the integration variable are recorded and NOT examined "
+        "by value (TLA+/TLC has no real arithmetic)",
+        "histories: every step is judged by SameValue under the conditions STATED for the history; a rule that changes the conditions held by the "
+        "shared context is reported as a divergence only (the property speaks about values)",
         "universally quantified claims are checked at a finite grid of rational points satisfying the recorded conditions (a counter-point is "
         "genuine; agreement on the grid is not a proof); points where either side is undefined, not exactly evaluable or beyond 2^30 are skipped",
         "antiderivatives / Skolem constants: equality up to an additive constant that may depend on every variable but the integration variable",
@@ -128,9 +151,10 @@ def run(rep, tier):
         "FoldDefinition, ApplyInductHyp, ReplaceSubstitution, IntegrateByEquation, *Equation rules) are not judged by value",
         "an EvalAt whose body contains a derivative with respect to the EvalAt variable, and expressions in which a binder re-binds the variable of an enclosing binder, are not examined by value; interval bounds (integral/interval.py) are not examined; print/parse identifies the numerals -3 / neg(3), 3/4 / (3)/(4), -oo / neg(oo)",
         "TLC/SANY, lib/Rat.tla, the structural codec in harness/drivers/c19.py, CPython"]
-    vec = wd / "vectors.ndjson"
+    vec, vecx = wd / "vectors.ndjson", wd / "ctx_vectors.ndjson"
     ev_rand, ev_ex, ev_rep = wd / "rand.ndjson", wd / "examples.ndjson", wd / "replay.ndjson"
     mutants = MUTANTS[:1] if quick else MUTANTS
+    ctx_mutants = CTX_MUTANTS[:1] if quick else CTX_MUTANTS
     cls = {}
 
     def keyf(e):
@@ -167,17 +191,28 @@ def run(rep, tier):
         f_mc = ex.submit(model_check, "C19_Calc", cfg, wd=wd / "mc", workers=1, env={"VECTOR_FILE": vec}, timeout=7200)
         f_code = ex.submit(code_driven)
         f_mut = ex.submit(lambda: [spec_mutant(rep, n, "C19_Calc", "C19_Calc_tiny.cfg", ed, exp, wd=wd, workers=1,
-                                               env={"VECTOR_FILE": wd / "mutant_vectors.ndjson"}) for n, ed, exp in mutants])
+                                               env={"VECTOR_FILE": wd / "mutant_vectors.ndjson"}) for n, ed, exp in mutants] +
+                                  [spec_mutant(rep, n, "C19_Ctx", "C19_Ctx_tiny.cfg", ed, exp, wd=wd, workers=1,
+                                               env={"VECTOR_FILE": wd / "mutant_vectors.ndjson"}) for n, ed, exp in ctx_mutants])
+        rx = model_check("C19_Ctx", cfgx, wd=wd / "mcx", workers=1, env={"VECTOR_FILE": vecx}, timeout=7200)
+        rep.add_mc("C19_Ctx", rx, cfgx)
+        if rx.violated:
+            rep.design_violation("C19_Ctx", rx)
+            return
         r = f_mc.result()
         rep.add_mc("C19_Calc", r, cfg)
         if r.violated:
             rep.design_violation("C19_Calc", r)
             return
-        require(vec.exists(), "C19_Calc wrote no vectors")
+        require(vec.exists() and vecx.exists(), "C19_Calc / C19_Ctx wrote no vectors")
+        with open(vec, "a") as f:
+            f.write(open(vecx).read())
         rep.exhaustive = True
         rep.notes["vectors"] = sum(1 for _ in open(vec))
         if '<< "vectors"' in r.out:
             rep.notes["universe"] = " ".join(r.out[r.out.find('<< "vectors"'):].split(">>")[0].replace("<<", "").split())
+        if '<<"ctx vectors"' in rx.out:
+            rep.notes["context_machine"] = rx.out[rx.out.find('<<"ctx vectors"'):].split(">>")[0].replace("<<", "")
         # spec -> code -> spec, with the corrupted copies of the binding self-test in the same run
         run_driver("c19", ["replay", vec, ev_rep], timeout=7200)
         evs1 = read_events(ev_rep)
@@ -209,6 +244,15 @@ def run(rep, tier):
             oc[k] = oc.get(k, 0) + 1
             if e["tid"] in nt:
                 examined[e["base"]] = examined.get(e["base"], 0) + 1
+    fams = {}
+    for e in evs1 + evs2:
+        if e["kind"] == "rule" and e.get("fam") in ("hist", "ident", "lim") or (e["kind"] == "rule" and e["e"][0] == "lim"):
+            f = e.get("fam") if e.get("fam") in ("hist", "ident") else "lim"
+            d = fams.setdefault(f, {"steps": 0, "examined by value": 0, "changed the shared context (divergence)": 0})
+            d["steps"] += 1
+            d["examined by value"] += e["tid"] in nt
+            d["changed the shared context (divergence)"] += ("cb" in e and "ca" in e and e["cb"] != e["ca"])
+    rep.notes["families"] = fams
     rep.notes["rule_outcomes"] = dict(sorted(oc.items()))
     rep.notes["rule_steps_examined_by_value"] = dict(sorted(examined.items()))
     exs = [e for e in evs3 if e["kind"] == "rule"]
@@ -219,6 +263,9 @@ def run(rep, tier):
     require(tr["replay"]["nontrivial"] >= (5000 if quick else 40000), "C19: too few examined replayed steps (vacuity guard)")
     require(tr["rand"]["nontrivial"] >= (700 if quick else 20000), "C19: too few examined random steps (vacuity guard)")
     require(len(exs) >= 1000 and rep.notes["example_steps"]["examined by value"] >= 15, "C19: example files not replayed (vacuity guard)")
+    for f, lo in (("hist", 300), ("ident", 100), ("lim", 200)):
+        require(fams.get(f, {}).get("examined by value", 0) >= lo, "C19: family %s examined by value only %d times (vacuity guard)" % (
+            f, fams.get(f, {}).get("examined by value", 0)))
     for b in ("Linearity", "DefiniteIntegralIdentity", "Substitution", "IntegrationByParts", "SplitRegion", "ExpandPolynomial",
               "DerivativeSimplify", "FullSimplify", "Simplify"):
         require(examined.get(b, 0) >= 20, "C19: rule %s examined by value only %d times (vacuity guard)" % (b, examined.get(b, 0)))
